@@ -472,10 +472,19 @@ def _created_in_loop(fn, body):
     return out
 
 
+_MAIN_READ_REACH = None
+
+
 def run_N_writer(rep, g, prefixes, floor=1):
     """N over the writer's own serialisation code: a width chosen for a value (`delta as u8`, `offset as u16`) must be
     proven to hold it by the guard that selected that width. Functions reachable from the converters are audited in C01/C12."""
     from ..roots import read_roots
     reach, _ = g.reachable(read_roots(g))
+    # feature-set variants without the converters (`write` alone) must not pull the convert-reachable writer functions into
+    # this scope: they are audited (and their findings recorded) where conversion reaches them, i.e. in the main configuration
+    global _MAIN_READ_REACH
+    if _MAIN_READ_REACH is None:
+        _MAIN_READ_REACH = set(reach)
+    reach = set(reach) | _MAIN_READ_REACH
     scope = {p for p in g.fns if any(p.startswith(x) or p.startswith('<' + x) for x in prefixes) and '::convert::' not in p and p not in reach}
     return run_N(rep, g, scope, scope_name='writer (%s)' % ', '.join(prefixes), floor=floor)
